@@ -206,6 +206,7 @@ func checkC08(c *Ctx) {
 	r.Rule("R08f", "the TS server converts URL strings to the type the TS client's request interface declares (shared with C07/R07e)", 6)
 	c07ServerInputs(c, "R08f")
 	c08RouteAgreement(c)
+	c08HeaderSetNotAdd(c)
 }
 
 // unitLines returns the key-rendered lines of every variant of a unit (deduplicated).
@@ -505,4 +506,41 @@ func c08RouteAgreement(c *Ctx) {
 		r.Check(ok, "R08g", s.String(), pos,
 			fmt.Sprintf("%s: the TS client calls %s %q and the TS server routes %s %q: the generated client's request does not reach the generated server's handler", s, cl[0], cl[1], sv[0], sv[1]))
 	}
+}
+
+// c08HeaderSetNotAdd: R08h — the emitted Go client applies client-wide and per-call headers with Header.Set,
+// so that a per-call value replaces the default (as the TS client's object spread does); Header.Add would send
+// both values and servers read the first (Go) or the comma-joined list (TS).
+func c08HeaderSetNotAdd(c *Ctx) {
+	r := c.R
+	r.Rule("R08h", "the Go client applies default and per-call headers by replacement (Header.Set), like the TS client's object spread", 1)
+	ri := c.Root(pkgClient, "_client.pb.go")
+	if ri == nil {
+		r.Unres("R08h", "_client.pb.go", "", "unit root not found")
+		return
+	}
+	ex := c.Explore(ri.Fn, 1, 4000)
+	nSet := 0
+	bad := map[string]string{}
+	for _, v := range ex.Variants {
+		for _, u := range v.Units {
+			for _, l := range u.Lines {
+				t := strings.TrimSpace(lineText(l.Segs))
+				if strings.Contains(t, ".Header.Set(") {
+					nSet++
+				}
+				if strings.Contains(t, ".Header.Add(") {
+					bad["Go client adds a request header value instead of replacing it"] = c.P.Pos(l.Pos)
+				}
+			}
+		}
+	}
+	for _, k := range sortedKeys(bad) {
+		r.Bad("R08h", k, bad[k], "the emitted client calls Header.Add: when the same header is configured as a client default and as a per-call option the request carries two values; the Go server's Header.Get validates the stale default and the TS server's headers.get the comma-joined list, while the TS client sends the per-call value only", nil)
+	}
+	if nSet == 0 {
+		r.Undec("R08h", "header application in the Go client", "", "no Header.Set line found in any variant")
+		return
+	}
+	r.OKd("R08h", "Go client headers are applied with Header.Set", "", map[string]any{"set_lines": nSet, "add_lines": len(bad)})
 }
